@@ -175,6 +175,15 @@ def c01_family(tier, n):
                                                           src(n, 's2', period=p2, required='snk', topics=['main', 'aux']),
                                                           sink('snk', [s1, s2])]))
 
+    # join of two synchronized sources plus a '?' side source whose ids run far ahead of theirs (its ids are its own business)
+    # (the side source has a fast synchronized consumer of its own, 'drain', which lets it publish at its own pace)
+    for p1, p2 in [(0, 30), (30, 130)]:
+        for order in ['side-last', 'side-first']:
+            srcs = ['s1', 's2;main>other', 'side?;main>side']
+            out.append(scn(f'join2+ephsrc/{p1}/{p2}/{order}', [src(n, 's1', period=p1, required='snk'), src(n, 's2', period=p2, required='snk'),
+                                                                src(12 * n, 'side', period=10), sink('drain', ['side']),
+                                                                sink('snk', srcs if order == 'side-last' else srcs[2:] + srcs[:2])], quiet_ms=600))
+
     # join of two independent chains, one with a skipping relay, the other slow (a timed-out recv must not forget an adopted id)
     for beh in ['skip1', 'skip02']:
         for p2 in [0, 60, 150]:
@@ -539,6 +548,13 @@ def c04_family(tier):
             sc['c04_waits'] = True
             out.append(sc)
 
+            if not n3:      # ... the same with a low latency consumer (sources_low_latency: never asks ahead)
+                fs = [dict(f) for f in fs]
+                fs[-1] = {**fs[-1], 'config': {**(fs[-1].get('config') or {}), 'sources_low_latency': True}}
+                sc = timely(scn(f'join-waits-lowlat/p{p2}/2src', fs), quiet=10**9, horizon=2 * p2 + 700)
+                sc['c04_waits'] = True
+                out.append(sc)
+
     # stall longer than the connection timeout, consumer not a required output: producer may move on (nothing to check but order)
     for k in [1]:
         out.append(timely(scn(f'oneof2-timeout/k{k}', [src(N, required='other', period=30), sink('snk', ['src'], stall(k, 2500)),
@@ -618,6 +634,18 @@ def c05_family(tier, n):
             out.append(timely(scn(f'late-watch-join2chain/{m}/late{late}', fs), quiet=900))
             out[-1]['timing_only'] = True      # (which of s2's frames q gets depends on when the join asks it to jump: no functional reference;
                                                #  judged by the with / without listener differential and, in the schedule exploration, by set integrity and order)
+
+    # an ephemeral source that leaves properly (CLOSE) while its consumer holds one synchronized source's frame and waits for the other's
+    for k in [2, 4]:
+        for p2 in [60, 150]:
+            fs = [src(n + 3, 's1', period=20, required='snk'), src(n + 3, 's2', period=p2, required='snk'),
+                  {**src(40, 'side', period=25), 'faults': [{'at': 'process', 'k': k, 'what': 'exit'}]},
+                  sink('snk', ['s1', 's2;main>other', 'side?;main>side'])]
+
+            for f in fs:
+                f['run'] = {'prop_exit': 'none', 'obey_exit': 'none'}
+
+            out.append(timely(scn(f'eph-source-leaves/k{k}/p{p2}', fs), quiet=900))
 
     # a listener that leaves properly in mid-stream (exit -> CLOSE) while the publisher goes on serving its synchronized consumer
     for m in ['?', '??']:
@@ -847,6 +875,16 @@ def c06_family(tier):
     out[-1]['faults']['groups'] = [['src', 'mid']]
     out[-1]['horizon_ms'] = 4040
     out[-1]['faults']['from_ms'] = 4000
+
+    # one message of a multi-topic set is lost on the wire (PUB high-water mark): the consumer holds a partial set and has to get the
+    # publisher going again by repeating its request
+    for nm, fs in [('chain2-2topics', [src(N, period=period, topics=['main', 'aux']), sink('snk', ['src;main;aux'])]),
+                   ('join2-2topics', [src(N, 's1', period=period, topics=['main', 'aux']), src(N, 's2', period=period), sink('snk', ['s1;main;aux', 's2;main>other'])])]:
+        s = timely(scn(f'lost-part/{nm}', fs), quiet=10**9, horizon=700)
+        s['conn_timeout'] = C06_CT
+        s['c06_bound']    = C06_CT + 5 * 100
+        s['faults']       = {'kinds': ['lose'], 'victims': ['snk'], 'budget': 1, 'when': 'any', 'after_ms': C06_CT + 5 * 100 + 700, 'from_ms': 200}
+        out.append(s)
 
     # graceful stop (stop event: shutdown runs, CLOSE is sent, sockets are closed) and restart under the same id
     for v in ['src', 'mid', 'snk']:
